@@ -86,12 +86,6 @@ def withDigest (i e h z : String) (f : Str → String) : String :=
   | some (.error err) => showRes (.error err)
   | some (.ok d) => f d
 
-/-- `d.GetDigestFunction()`: the bare function re-derived from the packed string, and the instance name. -/
-def functionOf (d : Str) : Option (BareFn × Str) :=
-  match unpack d with
-  | none => none
-  | some u => (getBareFunction u.fn 0).map fun f => (f, instOf d u)
-
 def stepWords : List String → String
   | ["inst", s] =>
     match str? s with
@@ -142,7 +136,7 @@ def stepWords : List String → String
     | _, _ => "bad-op"
   | ["rtproto", i, e, h, z] =>
     withDigest i e h z fun d =>
-      match getProto d, functionOf d with
+      match getProto d, getDigestFunction d with
       | some (ph, pz), some (f, inst) =>
         s!"{hexOfStr d} {hexOfStr ph} {pz} => {showRes (newDigestFromProto f inst (some (ph, (pz : Int))))}"
       | _, _ => "panic"
